@@ -11,6 +11,14 @@
 (*          comment / late = after the first statement, where it is no       *)
 (*          header any more), opt = directive passed to the compiler         *)
 (*          (CompilationOptions / cythonize(compiler_directives=) / -X).     *)
+(* Every node carries the *list* of its directive decorators / with-items    *)
+(* in source order (st).  The same directive may occur more than once:       *)
+(*   decorators : the first (outermost) decorator of a directive wins        *)
+(*                ("Decorators coming first take precedence"), for the       *)
+(*                decorated object itself and for everything it contains;    *)
+(*   with-items : `with cython.d(u), cython.d(v):` reads like the nested     *)
+(*                form, so the last item (the nearest enclosing one) wins.   *)
+(* ov = the winning value per directive (derived from st).                   *)
 (* Two abstract inheritable boolean directives, p (default FALSE) and q      *)
 (* (default TRUE); the binding maps them to real directives with the same    *)
 (* default (cdivision, nonecheck, overflowcheck / boundscheck, wraparound,   *)
@@ -22,7 +30,15 @@
 (* Impl-shaped : Dict(i) = dictionary propagation of                         *)
 (*               InterpretCompilerDirectives (module dict = defaults updated *)
 (*               by options updated by header; child dict = copy of the      *)
-(*               parent's updated by the node's own directives).             *)
+(*               parent's updated by the node's own directives), with the    *)
+(*               decorator list processed as _extract_directives does it:    *)
+(*               scanned innermost first against a running dictionary (a     *)
+(*               decorator that does not change the running value is         *)
+(*               dropped), the kept ones merged so that later = outer ones   *)
+(*               override, giving the directives of the object (OwnDict) and *)
+(*               of its contents (Dict); visit_with_directives skips the     *)
+(*               wrapping when the object's dictionary equals the enclosing  *)
+(*               one.                                                        *)
 (* Hazard predictor (not a demand): bodies of lam/gen are emitted, and those *)
 (* of comp analysed, with the directives of the *owner* scope (nearest       *)
 (* enclosing function or module) -- `deferred` marks the nodes where that    *)
@@ -36,8 +52,13 @@ EXTENDS Integers, Sequences, FiniteSets, TLC, Json
 
 CONSTANTS MaxNodes,   \* nodes below the module
           MaxDepth,   \* depth below the module
-          OvMode,     \* "all": every override combination; "small": 5 of the 9
-          SrcMode,    \* "none" | "few" | "full": header/option combinations
+          OvMode,     \* "all": every override combination; "small": 5 of the 9; "min": 3
+          SrcMode,    \* "none" | "some" | "few" | "full": header/option combinations
+          MaxStack,   \* 0: every node carries the canonical list of its override (p, then q);
+                      \* n > 0: up to StackNodes nodes of a tree carry any list of <= n
+                      \* decorators (<= min(n, 2) with-items), repetitions included
+          StackNodes,
+          Shape,      \* "any": all ordered trees; "chain": every node is a child of the previous one
           Dump
 
 Dirs == {"p", "q"}
@@ -47,7 +68,20 @@ B(x) == x = "T"
 NoOv == [p |-> "-", q |-> "-"]
 OvAll == [Dirs -> Ov]
 OvSmall == {NoOv, [p |-> "T", q |-> "-"], [p |-> "F", q |-> "-"], [p |-> "-", q |-> "F"], [p |-> "T", q |-> "T"]}
-OvSet == IF OvMode = "all" THEN OvAll ELSE OvSmall
+OvMin == {NoOv, [p |-> "T", q |-> "-"], [p |-> "-", q |-> "F"]}
+OvSet == IF OvMode = "all" THEN OvAll ELSE IF OvMode = "min" THEN OvMin ELSE OvSmall
+
+\* decorator lists / with-item lists
+Items == [d : Dirs, v : {"T", "F"}]
+SeqsUpTo(n) == UNION {[1..k -> Items] : k \in 0..n}
+Canon(ov) == (IF ov["p"] # "-" THEN <<[d |-> "p", v |-> ov["p"]]>> ELSE <<>>) \o
+             (IF ov["q"] # "-" THEN <<[d |-> "q", v |-> ov["q"]]>> ELSE <<>>)
+Occ(st, d) == {k \in 1..Len(st) : st[k].d = d}
+MinOf(S) == CHOOSE x \in S : \A y \in S : x <= y
+MaxOf(S) == CHOOSE x \in S : \A y \in S : x >= y
+\* reference: which occurrence of a repeated directive counts
+WinIdx(kind, st, d) == IF kind = "with" THEN MaxOf(Occ(st, d)) ELSE MinOf(Occ(st, d))
+OvOf(kind, st) == [d \in Dirs |-> IF Occ(st, d) = {} THEN "-" ELSE st[WinIdx(kind, st, d)].v]
 
 Kinds == {"def", "cfn", "cclass", "pyclass", "with", "lam", "gen", "comp"}
 Leaves == {"lam", "gen", "comp"}
@@ -58,10 +92,14 @@ SrcFew == { [hdr |-> NoOv, opt |-> NoOv, hpos |-> "top"],
             [hdr |-> [p |-> "F", q |-> "T"], opt |-> [p |-> "T", q |-> "F"], hpos |-> "top"],
             [hdr |-> [p |-> "T", q |-> "-"], opt |-> [p |-> "-", q |-> "F"], hpos |-> "top"],
             [hdr |-> [p |-> "T", q |-> "F"], opt |-> NoOv, hpos |-> "late"] }
+SrcSome == { [hdr |-> NoOv, opt |-> NoOv, hpos |-> "top"],
+             [hdr |-> NoOv, opt |-> [p |-> "T", q |-> "F"], hpos |-> "top"],
+             [hdr |-> [p |-> "T", q |-> "F"], opt |-> [p |-> "F", q |-> "-"], hpos |-> "top"] }
 SrcFull == {s \in [hdr : OvAll, opt : OvAll, hpos : {"top", "after_comment", "late"}] :
               s.hdr = NoOv => s.hpos = "top"}
 SrcSet == IF SrcMode = "full" THEN SrcFull
           ELSE IF SrcMode = "few" THEN SrcFew
+          ELSE IF SrcMode = "some" THEN SrcSome
           ELSE {[hdr |-> NoOv, opt |-> NoOv, hpos |-> "top"]}
 
 VARIABLES nodes, src
@@ -119,29 +157,65 @@ EffVec(ns, s, i) == [d \in Dirs |-> Eff(ns, s, i, d)]
 Update(dict, ov) == [d \in Dirs |-> IF ov[d] # "-" THEN B(ov[d]) ELSE dict[d]]
 ModDict(s) == LET withOpts == Update(Default, s.opt)
               IN IF HdrActive(s) THEN Update(withOpts, s.hdr) ELSE withOpts
+\* _extract_directives: decorators scanned from the innermost one (k = Len(st)) outwards against
+\* a running copy of the enclosing dictionary; one that does not change the running value is
+\* dropped ("Directive does not change previous value"), the others are collected in scan order
+RECURSIVE Scan(_, _, _, _), Merge(_, _, _)
+Scan(st, k, cur, dl) ==
+  IF k = 0 THEN dl
+  ELSE IF cur[st[k].d] # B(st[k].v)
+       THEN Scan(st, k - 1, [cur EXCEPT ![st[k].d] = B(st[k].v)], Append(dl, st[k]))
+       ELSE Scan(st, k - 1, cur, dl)
+\* "merge or override repeated directives": a later entry of the list overrides an earlier one
+Merge(dl, k, acc) == IF k > Len(dl) THEN acc ELSE Merge(dl, k + 1, [acc EXCEPT ![dl[k].d] = dl[k].v])
+OptDict(old, st) == Merge(Scan(st, Len(st), old, <<>>), 1, NoOv)
+\* p and q are not "immediate" decorator directives: the contents get the same dictionary
+ContentsOptDict(old, st) == OptDict(old, st)
+\* visit_WithStatNode: directive_dict[name] = value, item by item
+WithDict(st) == Merge(st, 1, NoOv)
+
 RECURSIVE Dict(_, _, _)
-Dict(ns, s, i) == IF i = 0 THEN ModDict(s) ELSE Update(Dict(ns, s, ParOf(ns, i)), ns[i].ov)
+\* directives of the code *inside* node i
+Dict(ns, s, i) ==
+  IF i = 0 THEN ModDict(s)
+  ELSE LET old == Dict(ns, s, ParOf(ns, i))
+       IN IF ns[i].kind = "with" THEN Update(old, WithDict(ns[i].st))
+          ELSE IF Update(old, OptDict(old, ns[i].st)) = old THEN old      \* "directives unchanged" shortcut
+          ELSE Update(old, ContentsOptDict(old, ns[i].st))
+\* directives of the decorated object itself (the CompilerDirectivesNode around it)
+OwnDict(ns, s, i) == LET old == Dict(ns, s, ParOf(ns, i))
+                     IN IF ns[i].kind = "with" THEN Dict(ns, s, i) ELSE Update(old, OptDict(old, ns[i].st))
 
 ---------------------------------------------------------------------------
 (* tree growth *)
 RightPath == IF N(nodes) = 0 THEN {0} ELSE {0} \cup AncSelf(nodes, N(nodes))
 
-Add(par, kind, ov) ==
+Add(par, kind, st) ==
   /\ par \in RightPath
+  /\ Shape = "chain" => par = N(nodes)
   /\ DepthOf(nodes, par) < MaxDepth
   /\ kind \in ChildKinds(nodes, par)
-  /\ nodes' = Append(nodes, [kind |-> kind, par |-> par, ov |-> ov])
+  /\ nodes' = Append(nodes, [kind |-> kind, par |-> par, st |-> st, ov |-> OvOf(kind, st)])
   /\ UNCHANGED src
 
+\* the lists a new node may carry: the canonical ones, and -- while fewer than StackNodes nodes
+\* have one -- every list up to the bound
+IsCanon(nd) == nd.st = Canon(nd.ov)
+CanonLists == {Canon(ov) : ov \in OvSet}
+FreeLists(kind) == IF MaxStack > 0 /\ Cardinality({i \in 1..N(nodes) : ~IsCanon(nodes[i])}) < StackNodes
+                   THEN SeqsUpTo(IF kind = "with" /\ MaxStack > 2 THEN 2 ELSE MaxStack)
+                   ELSE {}
+Lists(kind) == (CanonLists \cup FreeLists(kind)) \ (IF kind = "with" THEN {<<>>} ELSE {})
+
 More == N(nodes) < MaxNodes
-AddDef     == More /\ \E par \in 0..MaxNodes, ov \in OvSet : Add(par, "def", ov)
-AddCfn     == More /\ \E par \in 0..MaxNodes, ov \in OvSet : Add(par, "cfn", ov)
-AddCClass  == More /\ \E par \in 0..MaxNodes, ov \in OvSet : Add(par, "cclass", ov)
-AddPyClass == More /\ \E par \in 0..MaxNodes, ov \in OvSet : Add(par, "pyclass", ov)
-AddWith    == More /\ \E par \in 0..MaxNodes, ov \in OvSet \ {NoOv} : Add(par, "with", ov)
-AddLam     == More /\ \E par \in 0..MaxNodes : Add(par, "lam", NoOv)
-AddGen     == More /\ \E par \in 0..MaxNodes : Add(par, "gen", NoOv)
-AddComp    == More /\ \E par \in 0..MaxNodes : Add(par, "comp", NoOv)
+AddDef     == More /\ \E par \in 0..MaxNodes, st \in Lists("def") : Add(par, "def", st)
+AddCfn     == More /\ \E par \in 0..MaxNodes, st \in Lists("cfn") : Add(par, "cfn", st)
+AddCClass  == More /\ \E par \in 0..MaxNodes, st \in Lists("cclass") : Add(par, "cclass", st)
+AddPyClass == More /\ \E par \in 0..MaxNodes, st \in Lists("pyclass") : Add(par, "pyclass", st)
+AddWith    == More /\ \E par \in 0..MaxNodes, st \in Lists("with") : Add(par, "with", st)
+AddLam     == More /\ \E par \in 0..MaxNodes : Add(par, "lam", <<>>)
+AddGen     == More /\ \E par \in 0..MaxNodes : Add(par, "gen", <<>>)
+AddComp    == More /\ \E par \in 0..MaxNodes : Add(par, "comp", <<>>)
 
 Init == nodes = <<>> /\ src \in SrcSet
 Next == AddDef \/ AddCfn \/ AddCClass \/ AddPyClass \/ AddWith \/ AddLam \/ AddGen \/ AddComp
@@ -154,8 +228,10 @@ All == 0..N(nodes)
 WellFormed == \A i \in 1..N(nodes) :
                 /\ nodes[i].par \in 0..(i - 1)
                 /\ nodes[i].kind \in ChildKinds(nodes, nodes[i].par)
-                /\ (nodes[i].kind \in Leaves => nodes[i].ov = NoOv)
+                /\ (nodes[i].kind \in Leaves => nodes[i].st = <<>>)
                 /\ (nodes[i].kind = "with" => nodes[i].ov # NoOv)
+                /\ nodes[i].ov = OvOf(nodes[i].kind, nodes[i].st)
+                /\ (\A d \in Dirs : nodes[i].ov[d] = "-" <=> Occ(nodes[i].st, d) = {})
                 /\ KindOf(nodes, nodes[i].par) \notin Leaves
 
 \* the effective value is a function of the node: exactly one candidate
@@ -164,9 +240,21 @@ Unambiguous == \A i \in All : \A d \in Dirs : Cardinality(EffSet(nodes, src, i, 
 \* dictionary propagation delivers the reference value everywhere
 DictAgrees == \A i \in All : \A d \in Dirs : Dict(nodes, src, i)[d] \in EffSet(nodes, src, i, d)
 
+\* a decorated function / class is itself governed by the value that governs its contents
+\* (signature and body of `@cython.d(v) def f` are both "the enclosed code")
+OwnAgrees == \A i \in 1..N(nodes) : \A d \in Dirs : OwnDict(nodes, src, i)[d] \in EffSet(nodes, src, i, d)
+
+\* a repeated directive: the occurrence that counts is the outermost decorator / the last with-item,
+\* whatever the shadowed occurrences say
+Precedence == \A i \in 1..N(nodes) : \A d \in Dirs : Occ(nodes[i].st, d) # {} =>
+   LET st == nodes[i].st
+       w == IF nodes[i].kind = "with" THEN st[MaxOf(Occ(st, d))].v ELSE st[MinOf(Occ(st, d))].v
+   IN /\ Dict(nodes, src, i)[d] = B(w)
+      /\ OwnDict(nodes, src, i)[d] = B(w)
+
 \* "exactly within": removing the overrides of node k changes nothing outside k's subtree,
 \* and inside the subtree only what no nearer override shadows
-Clear(ns, k) == [ns EXCEPT ![k].ov = NoOv]
+Clear(ns, k) == [ns EXCEPT ![k].ov = NoOv, ![k].st = <<>>]
 NoLeak == \A k \in 1..N(nodes) : \A j \in All \ Desc(nodes, k) : \A d \in Dirs :
              EffSet(Clear(nodes, k), src, j, d) = EffSet(nodes, src, j, d)
 Applies == \A k \in 1..N(nodes) : \A d \in Dirs : nodes[k].ov[d] # "-" =>
@@ -186,10 +274,23 @@ Deferred(i) == IF nodes[i].kind \in Leaves
                THEN [d \in Dirs |-> Eff(nodes, src, i, d) # Eff(nodes, src, Owner(nodes, i), d)]
                ELSE [d \in Dirs |-> FALSE]
 
+\* class of the list of node i with respect to directive d: not named / named once / repeated
+\* with one value / repeated with both values, the winner restoring the value of the enclosing
+\* scope ("restore": the net effect is nil) or not ("flip")
+Shadow(i, d) ==
+  LET st == nodes[i].st
+      occ == Occ(st, d)
+  IN IF occ = {} THEN "none"
+     ELSE IF Cardinality(occ) = 1 THEN "single"
+     ELSE IF Cardinality({st[k].v : k \in occ}) = 1 THEN "same"
+     ELSE IF B(nodes[i].ov[d]) = Eff(nodes, src, ParOf(nodes, i), d) THEN "restore"
+     ELSE "flip"
+
 Publish == Dump => PrintT("@@" \o ToJson(
    [nodes |-> nodes, hdr |-> src.hdr, opt |-> src.opt, hpos |-> src.hpos,
     eff0 |-> EffVec(nodes, src, 0),
     eff |-> [i \in 1..N(nodes) |-> EffVec(nodes, src, i)],
     owner |-> [i \in 1..N(nodes) |-> IF nodes[i].kind \in Leaves THEN Owner(nodes, i) ELSE Base(nodes, i)],
-    deferred |-> [i \in 1..N(nodes) |-> Deferred(i)]]))
+    deferred |-> [i \in 1..N(nodes) |-> Deferred(i)],
+    shadow |-> [i \in 1..N(nodes) |-> [d \in Dirs |-> Shadow(i, d)]]]))
 =============================================================================
